@@ -32,6 +32,15 @@ register('C17', 'TLA+ Diff spec second derivatives (symmetry checked by TLC) as 
 register('C10', 'TLA+ Api spec: every comparison operand-kind pair enumerated by TLC; constraint semantics and solver-side functions captured at the minimize seam vs spec',
          'TLC enumerates every comparison (lhs kind x rhs kind x sense x reflected) over the C10 signature; for each constraint evaluate / violation / is_satisfied are compared exactly at rational points, and one solve through a stubbed minimize seam captures type / fun / jac of every solver constraint, compared with the spec ScipyCon (fun >= 0 exactly on the satisfied set, jac = D fun).',
          API_NOTE, 'DESIGN.md 3 (C10)')
+register('C04', 'TLA+ Poly/Terms spec: exact total degree of the normal form (TLC) as oracle for degree / linearity on TLC-enumerated programs, both traversals',
+         'TLC computes the exact rational normal form and total degree of every enumerated expression; the degree / is_linear / is_quadratic answers of optyx (recursive and forced-iterative traversal, cached and fresh) are checked for the implication claimed d => true degree <= d; claims on non-rational forms are confirmed by a high-precision finite-difference test before being reported.',
+         API_NOTE, 'DESIGN.md 3 (C04)')
+register('C05', 'TLA+ Analysis spec: LP(P) computed by TLC from exact normal forms (C05_LPDenotes model-checked) vs LinearProgramExtractor on TLC-enumerated problems',
+         'TLC enumerates problems built from linear spellings and computes their LP data (c, c0, rows, right-hand sides, bounds, column names) exactly; the thorough config model-checks that these data denote the model on a grid of affinely independent points; the extractor output of optyx is compared field by field.',
+         API_NOTE, 'DESIGN.md 3 (C05)')
+register('C16', 'TLA+ Names/Analysis spec: natural order on character codes and ProblemVars computed by TLC vs Problem.variables / get_bounds / Solution keys',
+         'TLC enumerates problems over names that separate natural from lexicographic order, reversed / strided views, symmetric matrices and binary vectors, and computes the variable list (natural sort specified in TLA+ on character codes), bounds and domains; optyx must report exactly these, also as keys of Solution.values (stubbed solver seams).',
+         API_NOTE, 'DESIGN.md 3 (C16)')
 
 ALL = ['C%02d' % i for i in range(1, 21)]
 
